@@ -33,6 +33,9 @@ def gen_class(lang, name, n_pub, n_priv, extras, blank, comment, start_line, sty
             L += ["    def __init__(self):", "        self.v = 0"]
         if "property" in extras:
             L += ["    @property", "    def prop(self):", "        return self.x"]
+            # the other accessors of a property and a cached property are properties too, not methods
+            L += ["    @prop.setter", "    def prop(self, value):", "        self.x = value"]
+            L += ["    @functools.cached_property", "    def total(self):", "        return self.x * 2"]
         if "static" in extras:
             L += ["    @staticmethod", "    def stat():", "        return 2"]
             pub += 1
@@ -84,6 +87,9 @@ def gen_class(lang, name, n_pub, n_priv, extras, blank, comment, start_line, sty
             L += [f"    fn _priv{i}(&self) {{", "    }"]
         L.append("}")
         pub = n_pub
+        if "dunder" in extras:   # a trait implemented for the struct: one more impl block of the struct (one method)
+            L += [f"impl<T> Describe for {name}<T> {{" if style == "generic" else f"impl Describe for {name} {{", "    fn describe(&self) -> i32 {", "        7", "    }", "}"]
+            pub += 1
         if "static" in extras:   # a second impl block for the same struct
             L += [f"impl<T> {name}<T> {{" if style == "generic" else f"impl {name} {{", "    pub fn stat() -> i32 {", "        2", "    }", "}"]
             pub += 1
